@@ -502,6 +502,9 @@ void GlobalGraph::deleteNode(Graph::NodeId node)
 
   nodeStructure_.erase(found);
 
+  // telling the observers
+  notifyDeletedNodes(vector<Graph::NodeId>(1, node));
+
   this->topologyHasChanged_();
 }
 
